@@ -37,6 +37,8 @@ type c10Op struct {
 	Bg    bool   `json:"bg,omitempty"`   // rh: foreign (background) context
 	Async bool   `json:"async,omitempty"`
 	Tag   string `json:"tag,omitempty"` // stamp: name
+	Sub   int    `json:"sub,omitempty"`  // add: 0 own subscriber object, k>0 the shared subscriber object k
+	SlowC int    `json:"slowc,omitempty"` // add: the publisher's Close() takes this many ms
 }
 
 type c10Park struct {
@@ -68,7 +70,27 @@ type c10Scenario struct {
 
 // ---- scripted subscriber: one per handler
 
+// one Subscriber OBJECT; handlers that share it get facades (c10Sub) of the same object: Close() of any of
+// them closes the subscriptions of all of them, as with one shared Subscriber instance
+type c10SubObj struct {
+	rt   *hookrt.Runtime
+	id   int
+	mu   sync.Mutex
+	subs []*c10Sub
+}
+
+func (o *c10SubObj) closeAll() {
+	o.rt.Stamp("api.sub.close_called", fmt.Sprint(o.id))
+	o.mu.Lock()
+	subs := append([]*c10Sub(nil), o.subs...)
+	o.mu.Unlock()
+	for _, s := range subs {
+		s.end("close")
+	}
+}
+
 type c10Sub struct {
+	obj   *c10SubObj
 	rt    *hookrt.Runtime
 	h     int
 	hon   bool
@@ -110,9 +132,6 @@ func (s *c10Sub) Subscribe(ctx context.Context, topic string) (<-chan *message.M
 func (s *c10Sub) end(kind string) {
 	s.mu.Lock()
 	defer s.mu.Unlock()
-	if kind == "close" {
-		s.rt.Stamp("api.sub.close_called", fmt.Sprint(s.h))
-	}
 	if !s.open {
 		return
 	}
@@ -122,7 +141,7 @@ func (s *c10Sub) end(kind string) {
 	close(s.ch)
 }
 
-func (s *c10Sub) Close() error { s.end("close"); return nil }
+func (s *c10Sub) Close() error { s.obj.closeAll(); return nil }
 
 // emit hands msg to the subscription (atomically with the "open" state); false if closed / not taken
 func (s *c10Sub) emit(msg *message.Message, d time.Duration) bool {
@@ -148,6 +167,7 @@ type c10Pub struct {
 	mu     sync.Mutex
 	closed bool
 	closes int
+	slowMs int
 }
 
 func (p *c10Pub) Publish(topic string, msgs ...*message.Message) error {
@@ -167,10 +187,14 @@ func (p *c10Pub) Publish(topic string, msgs ...*message.Message) error {
 
 func (p *c10Pub) Close() error {
 	p.mu.Lock()
-	defer p.mu.Unlock()
 	p.rt.Stamp("api.pubclose", fmt.Sprint(p.id))
 	p.closed = true
 	p.closes++
+	slow := p.slowMs
+	p.mu.Unlock()
+	if slow > 0 {
+		time.Sleep(time.Duration(slow) * time.Millisecond) // a publisher whose Close takes a while
+	}
 	return nil
 }
 
@@ -215,6 +239,9 @@ func c10Run(rt *hookrt.Runtime, sc *c10Scenario, seed int64) {
 	var mu sync.Mutex
 	note := func(s string) { mu.Lock(); sc.Notes = append(sc.Notes, s); mu.Unlock() }
 	var subs []*c10Sub
+	var names []string
+	var addSpecs []c10Op
+	subObjs := map[int]*c10SubObj{}
 	var handlers []*message.Handler
 	pubs := map[int]*c10Pub{}
 	nextTid := 0
@@ -253,33 +280,86 @@ func c10Run(rt *hookrt.Runtime, sc *c10Scenario, seed int64) {
 	for _, op := range sc.Ops {
 		op := op
 		switch op.K {
-		case "add":
+		case "add", "readd":
 			h := len(subs)
-			s := &c10Sub{rt: rt, h: h, hon: op.Hon, fail: op.Fail}
-			subs = append(subs, s)
 			name := hname(h)
-			var hd *message.Handler
-			if op.Pub < 0 {
-				hd = router.AddNoPublisherHandler(name, "topic-"+name, s, func(msg *message.Message) error {
-					rt.Stamp("api.processed", fmt.Sprint(h), "true", "-1")
-					slowWait(msg)
-					return nil
-				})
-			} else {
-				p := pubs[op.Pub]
-				if p == nil {
-					p = &c10Pub{rt: rt, id: op.Pub}
-					pubs[op.Pub] = p
+			spec := op
+			if op.K == "readd" {
+				// a new handler under the name of handler op.H (which was stopped): AddHandler panics with
+				// DuplicateHandlerNameError until the router has released the name - retry until accepted
+				if op.H >= len(names) {
+					continue
 				}
-				hd = router.AddHandler(name, "topic-"+name, s, "out", p, func(msg *message.Message) ([]*message.Message, error) {
-					slowWait(msg)
-					out := message.NewMessage(msg.UUID+"-out", nil)
-					out.Metadata.Set("h", fmt.Sprint(h))
-					return []*message.Message{out}, nil
-				})
+				name = names[op.H]
+				spec = addSpecs[op.H]
 			}
+			obj := subObjs[spec.Sub]
+			if spec.Sub == 0 || obj == nil {
+				obj = &c10SubObj{rt: rt, id: 1000 + h}
+				if spec.Sub > 0 {
+					obj.id = spec.Sub
+					subObjs[spec.Sub] = obj
+				}
+			}
+			s := &c10Sub{obj: obj, rt: rt, h: h, hon: spec.Hon, fail: spec.Fail}
+			obj.mu.Lock()
+			obj.subs = append(obj.subs, s)
+			obj.mu.Unlock()
+			var hd *message.Handler
+			tryAdd := func() (dup bool) {
+				defer func() {
+					if r := recover(); r != nil {
+						if _, ok := r.(message.DuplicateHandlerNameError); ok {
+							dup = true
+							return
+						}
+						panic(r)
+					}
+				}()
+				if spec.Pub < 0 {
+					hd = router.AddNoPublisherHandler(name, "topic-"+name, s, func(msg *message.Message) error {
+						rt.Stamp("api.processed", fmt.Sprint(h), "true", "-1")
+						slowWait(msg)
+						return nil
+					})
+				} else {
+					p := pubs[spec.Pub]
+					if p == nil {
+						p = &c10Pub{rt: rt, id: spec.Pub, slowMs: spec.SlowC}
+						pubs[spec.Pub] = p
+					}
+					hd = router.AddHandler(name, "topic-"+name, s, "out", p, func(msg *message.Message) ([]*message.Message, error) {
+						slowWait(msg)
+						out := message.NewMessage(msg.UUID+"-out", nil)
+						out.Metadata.Set("h", fmt.Sprint(h))
+						return []*message.Message{out}, nil
+					})
+				}
+				return false
+			}
+			accepted := false
+			for deadline := time.Now().Add(c10ObsWait); ; {
+				if !tryAdd() {
+					accepted = true
+					break
+				}
+				if op.K == "add" || time.Now().After(deadline) {
+					break
+				}
+				time.Sleep(200 * time.Microsecond)
+			}
+			if !accepted {
+				note("AddHandler: name " + name + " not accepted")
+				obj.mu.Lock()
+				obj.subs = obj.subs[:len(obj.subs)-1]
+				obj.mu.Unlock()
+				continue
+			}
+			subs = append(subs, s)
+			names = append(names, name)
+			addSpecs = append(addSpecs, spec)
 			handlers = append(handlers, hd)
-			rt.Stamp("api.add.ret", fmt.Sprint(h), fmt.Sprint(op.Pub), fmt.Sprint(op.Hon))
+			rt.Stamp("api.add.ret", fmt.Sprint(h), fmt.Sprint(spec.Pub), fmt.Sprint(spec.Hon), fmt.Sprint(obj.id))
 		case "add_dup":
 			// glue: a second handler with an existing name must panic with DuplicateHandlerNameError
 			func() {
@@ -602,6 +682,21 @@ func c10Forced() []*c10Scenario {
 	add("stop-while-other-handler-is-slow", []c10Op{opAdd(0, true), opAdd(1, true), opAdd(-1, true), opAdd(-1, true), op("run"), op("wait_running"), opH("slow_probe", 1), opH("slow_probe", 3),
 		opH("stop", 0), opH("wait_stopped", 0), opH("probe", 2), opH("stop", 2), opH("wait_stopped", 2), op("release"), opH("probe", 1), opH("probe", 3),
 		opH("stop", 1), opH("stop", 3), opH("wait_stopped", 1), opH("wait_stopped", 3), op("wait_run"), op("poll_running")})
+	// a new handler under a stopped handler's name (AddHandler retried until the name is accepted), while the
+	// stopped handler's goroutine is still finishing (its publisher's Close takes a while); then RunHandlers
+	add("readd-under-stopped-name", []c10Op{{K: "add", Pub: 0, Hon: true, SlowC: 40}, opAdd(-1, true), op("run"), op("wait_running"), opH("started", 0), opH("probe", 0), opH("stop", 0),
+		opH("readd", 0), opH("wait_stopped", 0), opRH(1, false, false), opH("started", 2), opH("probe", 2), opH("probe", 1), opRH(2, false, false), opH("stop", 1), opH("stop", 2),
+		opH("wait_stopped", 1), opH("wait_stopped", 2), op("wait_run"), op("poll_running")})
+	add("readd-after-stopped", []c10Op{opAdd(-1, true), opAdd(1, true), op("run"), op("wait_running"), opH("stop", 0), opH("wait_stopped", 0), opH("readd", 0), opRH(1, false, false),
+		opH("started", 2), opH("probe", 2), opH("stop", 2), opH("wait_stopped", 2), opH("readd", 2), opRH(1, false, false), opH("started", 3), opH("probe", 3), opH("stop", 1), opH("stop", 3),
+		opH("wait_stopped", 1), opH("wait_stopped", 3), op("wait_run")})
+	// handlers sharing ONE Subscriber object: stopping one (whose subscription ignores the cancel and outlives CloseTimeout)
+	// must not end the others' subscriptions
+	add("shared-subscriber-stop-one", []c10Op{{K: "add", Pub: -1, Hon: false, Sub: 1}, {K: "add", Pub: -1, Hon: true, Sub: 1}, {K: "add", Pub: 0, Hon: true, Sub: 1}, opAdd(-1, true),
+		op("run"), op("wait_running"), opH("probe", 1), opH("stop", 0), {K: "sleep", N: 1300000}, opH("probe", 1), opH("probe", 2), opH("probe", 3), opH("probe", 0),
+		opH("subend", 0), opH("wait_stopped", 0), opH("probe", 2), opH("stop", 1), opH("stop", 2), opH("stop", 3), opH("wait_stopped", 1), opH("wait_stopped", 2), opH("wait_stopped", 3), op("wait_run")})
+	add("shared-subscriber-close", []c10Op{{K: "add", Pub: -1, Hon: true, Sub: 2}, {K: "add", Pub: 0, Hon: false, Sub: 2}, opAdd(-1, false), op("run"), op("wait_running"), opH("probe", 1),
+		opH("stop", 0), opH("wait_stopped", 0), opH("probe", 1), op("close"), op("wait_run"), opH("wait_stopped", 1), opH("wait_stopped", 2)})
 	// second Run after Close / after the context was cancelled
 	add("second-run-after-close", []c10Op{opAdd(-1, true), op("run"), op("wait_running"), op("run2"), op("close"), op("wait_run"), op("run2"), op("poll_running"), op("run2")})
 	add("second-run-after-cancel", []c10Op{opAdd(0, true), op("run"), op("wait_running"), op("cancel"), op("wait_run"), op("run2"), op("run2")})
@@ -636,7 +731,7 @@ var c10Actions = []string{"api.add.ret", "api.rh.call", "api.rh.ret", "api.start
 func c10Random(rng *rand.Rand, id int) *c10Scenario {
 	sc := &c10Scenario{Name: "random"}
 	var ops []c10Op
-	type hinfo struct{ hon, fail, covered, stopped, bg bool }
+	type hinfo struct{ hon, fail, covered, stopped, bg, readded bool }
 	var hs []*hinfo
 	npub := 0
 	addOp := func() {
@@ -656,7 +751,11 @@ func c10Random(rng *rand.Rand, id int) *c10Scenario {
 		}
 		h := &hinfo{hon: rng.Intn(6) != 0, fail: false}
 		hs = append(hs, h)
-		ops = append(ops, c10Op{K: "add", Pub: pub, Hon: h.hon})
+		sub := 0
+		if rng.Intn(3) == 0 {
+			sub = 1 + rng.Intn(2) // one of two shared Subscriber objects
+		}
+		ops = append(ops, c10Op{K: "add", Pub: pub, Hon: h.hon, Sub: sub})
 	}
 	alive := func() (n int) {
 		for _, h := range hs {
@@ -758,8 +857,14 @@ func c10Random(rng *rand.Rand, id int) *c10Scenario {
 				ops = append(ops, opH("slow_probe", h))
 			}
 		case 11:
-			if h := pick(func(h *hinfo) bool { return h.covered && h.stopped }); h >= 0 {
+			if h := pick(func(h *hinfo) bool { return h.covered && h.stopped && h.hon && !h.readded }); h >= 0 {
 				ops = append(ops, opH("wait_stopped", h))
+				if len(hs) < 5 && rng.Intn(2) == 0 {
+					// a new handler under the stopped handler's name
+					hs[h].readded = true
+					hs = append(hs, &hinfo{hon: true, covered: true})
+					ops = append(ops, opH("readd", h), opRH(1+rng.Intn(2), false, false), opH("started", len(hs)-1), opH("probe", len(hs)-1))
+				}
 			}
 		}
 	}
